@@ -16,6 +16,17 @@ ASSUMPTIONS = [
 ]
 
 
+def _mul_any(cv, k, A):
+    """double-and-add with the plain affine formulas, for points that need not be on the curve"""
+    R = None
+    while k > 0:
+        if k & 1:
+            R = ref_add(cv, R, A)
+        A = ref_add(cv, A, A)
+        k >>= 1
+    return R
+
+
 # ---------------------------------------------------------------- implementation side
 def _verify(cname, r, s, Q, z):
     import bits.ecmath as ec
@@ -278,6 +289,41 @@ def gen_cases(rng, tier):
             out.append(case("low-s-boundary" if s in svals[:14] else "low-s-rand", "low_s", "secp", ref_der(r, s)))
     out.append(case("low-s-s-ge-n", "low_s", "secp", ref_der(5, N)))
     out.append(case("low-s-garbage", "low_s", "secp", b"\x30\x02\x02\x00"))
+    # --- tuples crafted FOR an off-curve "public key": run the affine formulas on a point that is not on the curve
+    #     (u1 G + u2 Q' = R'), set r = x(R') mod n, s = r/u2, z = u1 s - the equation "holds" on garbage; never valid
+    def crafted_offcurve(cv, Qx, Qy, u1, u2):
+        n_ = cv["n"]
+        try:
+            Rp = ref_add(cv, ref_mul(cv, u1, cv["G"]), _mul_any(cv, u2, (Qx, Qy)))
+        except (ValueError, ZeroDivisionError):
+            return None
+        if Rp is None:
+            return None
+        r_ = Rp[0] % n_
+        if r_ == 0:
+            return None
+        s_ = r_ * pow(u2, -1, n_) % n_
+        if s_ == 0:
+            return None
+        return (r_, s_, (Qx, Qy), u1 * s_ % n_)
+    for cname in (("secp", "c43") if not T else ("secp", "c43", "c79", "c67")):
+        cv = CURVES[cname]
+        n_, p_ = cv["n"], cv["p"]
+        made = 0
+        for _ in range(4000):
+            if made >= ((6 if not T else 30) if cname == "secp" else (150 if not T else 1500)):
+                break
+            base = ref_mul(cv, rng.randrange(1, n_), cv["G"])
+            Qx, Qy = rng.choice([(base[0], (base[1] + rng.randrange(1, p_)) % p_), ((base[0] + 1) % p_, base[1]),
+                                 (rng.randrange(p_), rng.randrange(p_))])
+            if ref_on(cv, (Qx, Qy)):
+                continue
+            t = crafted_offcurve(cv, Qx, Qy, rng.randrange(1, n_), rng.randrange(1, n_))
+            if t is None:
+                continue
+            made += 1
+            for s_var in (t[1], n_ - t[1]):
+                out.append(case(cname + "-verify-offcurve-crafted", "verify", cname, t[0], s_var, t[2], t[3]))
     # --- small curves: every tuple (Q, z, r, s) on (43,31); samples on the larger ones
     for cname in (["c43"] if not T else ["c43", "c79", "c67"]):
         cv = CURVES[cname]
